@@ -282,6 +282,25 @@ func checkC13(e *Engine, r *Report) {
 			}
 			r.Check(ok, "slot writer › "+nm, e.Pos(fn.Pos()), "store.Set(key(txCount−1), value)", "the per-transaction slot is not keyed by the current transaction's index (txCount−1) or does not store the given value")
 		}
+		// ApplyMessageWithConfig replaces the assumed (gas limit / failed receipt) slots on EVERY path that produces a result:
+		// a transaction that ends with a VM error still has used gas, logs (none) and a receipt of its own
+		{
+			am := e.Fn(pkgEvmKeeper, "Keeper.ApplyMessageWithConfig")
+			okAll := len(successReturns(am)) > 0
+			for _, nm := range []string{"SetLogCountForCurrentTxTransient", "SetGasUsedForCurrentTxTransient", "SetTxReceiptForCurrentTxTransient"} {
+				cs := callsTo(am, false, CallSpec{pkgEvmKeeper, "Keeper", nm})
+				if len(cs) != 1 {
+					okAll = false
+					continue
+				}
+				for _, ret := range successReturns(am) {
+					if !passesThrough(am, ret, cs[0]) {
+						okAll = false
+					}
+				}
+			}
+			r.Check(okAll, "x/evm/keeper.Keeper.ApplyMessageWithConfig › every result stores its gas, log count and receipt", e.Pos(am.Pos()), "the three per-transaction slots are written on every success return", "a transaction that produced a result (e.g. one that ended with a VM error) keeps the assumed slots (gas = gas limit, assume-failed receipt): the cumulative gas of every later transaction in the block is inflated")
+		}
 		// cumulative readers
 		for _, sp := range []struct{ fn, elem string }{{"Keeper.GetCumulativeLogCountTransient", "TxLogCountTransientKey"}, {"Keeper.getCumulativeGasUsedTransient", "GetGasUsedForTdxIndexTransient"}} {
 			fn := e.Fn(pkgEvmKeeper, sp.fn)
